@@ -55,6 +55,7 @@ MAP = [
  ("parentheses of nested sums and products", ["C01", "C03"]),
  ("add the terms of a sum differently", ["C01"]),
  ("2-norm of the entries for values of any rank", ["C03"]),
+ ("comparison whose operand is a comparison", ["C01", "C03"]),
 ]
 def main():
     log = subprocess.run(["git", "-C", "/repo", "log", "--reverse", "--format=%h %s"],
